@@ -24,7 +24,7 @@ REPORT_COUNTERS = ['programs', 'predicates', 'ok', 'mismatch', 'made_predicates'
 
 def plan(tier, seed):
   return {'nshards': 16, 'timeout_s': 5400 if tier == 'thorough' else 1200,
-          'params': {'n_programs': 150 if tier == 'thorough' else 25}}
+          'params': {'n_programs': 60 if tier == 'thorough' else 12}}
 
 
 def deps(prog, sure=False):
@@ -191,6 +191,21 @@ def build(rng):
   readers = []
   for _ in range(rng.choice([0, 1, 1, 2])):
     readers.append(g.gen_derived())
+  # ... and a forced shape: Via reads a made predicate M, Both reads Via and an argument table directly; Both is applied in
+  # round two. M must be built before the application of Both although Both names M only through Via.
+  made_now = [n for n, _, _ in makes]
+  if made_now and families and rng.random() < 0.6:
+    saved = (g.f.get('func'), g.f.get('inj'))
+    g.f['func'], g.f['inj'] = 0.0, 0.0
+    m_pred = rng.choice(made_now)
+    fam = rng.choice(families)
+    g.call_pool = [m_pred]
+    via = g.gen_derived()
+    g.call_pool = [via, fam[0]]
+    both = g.gen_derived()
+    g.call_pool = None
+    g.f['func'], g.f['inj'] = saved
+    readers.append(both)
   prog['rules'] = g.rules
   prog['order'] = list(g.order)
   # second round: a functor that reaches a made predicate only through an ordinary predicate is applied itself
